@@ -404,7 +404,29 @@ func (g *Gen) bid() Op {
 		if g.r.P(4) {
 			ps = g.normalPrice()
 		}
-		if fa, ok := a.(*types.FixedPriceAuction); ok && g.r.P(30) {
+		if g.r.P(22) && len(al) > 0 {
+			// aim at what is left of the bidder's allowance: exactly that much, one more, one less, in either coin
+			used := math.ZeroInt()
+			bs, _ := g.e.k.GetBidsByAuctionId(g.e.ctx, id)
+			for _, b := range bs {
+				if g.userIdx(b.Bidder) == u {
+					used = used.Add(b.ConvertToSellingAmount(a.GetPayingCoinDenom()))
+				}
+			}
+			left := cap.Sub(used).AddRaw(g.r.PickI(0, 0, 1, -1))
+			if !left.IsPositive() {
+				left = math.NewInt(1)
+			}
+			if g.r.P(50) {
+				coin = sd + ":" + left.String()
+			} else {
+				w := math.LegacyNewDecFromInt(left).Mul(price).Ceil().TruncateInt().AddRaw(g.r.PickI(0, 0, 1, -1, 2))
+				if !w.IsPositive() {
+					w = math.NewInt(1)
+				}
+				coin = pd + ":" + w.String()
+			}
+		} else if fa, ok := a.(*types.FixedPriceAuction); ok && g.r.P(30) {
 			// aim at the remainder
 			rem := fa.RemainingSellingCoin.Amount
 			q := rem.AddRaw(g.r.PickI(0, 0, 1, -1))
